@@ -331,7 +331,7 @@ func (dec *Decoder) Number(ptr *uint32) bool {
 	}
 	v64, err := strconv.ParseUint(s, 10, 32)
 	if err != nil {
-		return false // can happen on overflow
+		return dec.returnErr(fmt.Errorf("imapwire: invalid number %q", s)) // overflow
 	}
 	*ptr = uint32(v64)
 	return true
